@@ -151,6 +151,31 @@ def specSeq (t : List Leaf) (ops : List Op) (impl : SExp) : Bool × String :=
     else if !seqEscapeFree t ops then (false, "autoescape_html")
     else (false, "-")
 
+/-! ## concurrent requests (conc cases) -/
+
+def req? : SExp → Option Req
+  | .list [.atom "res", qx] => do pure (.res (← query? qx))
+  | .list [.atom "get", qx] => do pure (.get (← query? qx))
+  | .list [.atom "rget", qx] => do pure (.rget (← query? qx))
+  | .list [.atom "proc", qx, vx] => do pure (.proc (← query? qx) (← kvs? vx))
+  | .list [.atom "rproc", qx, vx] => do pure (.rproc (← query? qx) (← kvs? vx))
+  | _ => none
+
+def concObsSx (o : ConcObs) : SExp := .list [obsItemSx o.alone, .list (o.conc.map obsItemSx)]
+
+def concObs? : SExp → Option ConcObs
+  | .list [a, .list cs] => do pure ⟨← obsItem? a, ← cs.mapM? obsItem?⟩
+  | _ => none
+
+/-- (spec, hyp) for a concurrent case: the hypotheses of `C20_conc_model_meets_spec_partial` the input violates -/
+def specConc (t : List Leaf) (reqs : List Req) (impl : SExp) : Bool × String :=
+  match impl.list? >>= fun l => l.mapM? concObs? with
+  | none => (false, "-")
+  | some obs =>
+    if concOk t reqs obs then (true, "-")
+    else if !reqs.all (reqEscFree t) then (false, "autoescape_html")
+    else (false, "-")
+
 def processLine (line : String) : String :=
   match SExp.fields line with
   | [inp, impl] =>
@@ -175,6 +200,16 @@ def processLine (line : String) : String :=
         else
           let model := SExp.list ((modelSeqObs t ops).map obsItemSx)
           let (spec, hyp) := specSeq t ops implSx
+          s!"{model}\t{if spec then 1 else 0}\t{hyp}"
+      | _, _ => "BADINPUT\t0\t-"
+    | some (.list [.atom "conc", tx, rx, _rounds]), some implSx =>
+      -- the number of rounds only says how hard the harness tries: the model knows no schedule
+      match leaves? tx, rx.list? >>= fun l => l.mapM? req? with
+      | some t, some reqs =>
+        if !prefixFree t then "BADINPUT-tree\t0\t-"
+        else
+          let model := SExp.list ((modelConcObs t reqs).map concObsSx)
+          let (spec, hyp) := specConc t reqs implSx
           s!"{model}\t{if spec then 1 else 0}\t{hyp}"
       | _, _ => "BADINPUT\t0\t-"
     | _, _ => "BADINPUT\t0\t-"
